@@ -1,5 +1,6 @@
 import StepModel.Props.C07
 import StepModel.ExpLexLemmas
+import StepModel.ExpRealLemmas
 /-!
 Lemmas that join the layout engine (`wrap`/`raw`, `StepModel/ExpPrint.lean`) and the scanner model (`StepModel/ExpLex.lean`):
 fragments written as *annotated fragments* (leading blanks, then tokens each followed by some blanks); a static no-glue
@@ -364,10 +365,10 @@ def itemA : Expr → Bool → List AFrag
   | _, _ => []
 end
 
-/-- literals whose printed form is one token of the scanner model (real literals and simple string literals are not covered:
-a real token is compared by value, a long string literal is split by `breakLongStr`) -/
+/-- literals whose printed form is one token of the scanner model: a real literal in its printed spelling (`real2exp g = g`; any
+other is first respelled, `respell`), not simple string literals (a long string literal is split by `breakLongStr`) -/
 def LitLex : Lit → Prop
-  | .real _ => False
+  | .real g => RealSp g ∧ real2exp g = g
   | .str _ => False
   | .estr s => TokWF (.estr s)
   | .bin s => TokWF (.bin s)
@@ -429,7 +430,13 @@ theorem frag_call (f : String) : (aW [(.id f, 0), (.lp, 1)]).frag = W (f ++ "( "
 theorem frag_lit (l : Lit) (h : LitLex l) : (aW ((litToks l).map fun t => (t, 0))).frag = litFrag false l ∧ ∀ b, litFrag b l = litFrag false l := by
   have hb : ExpPrec.binaryPrintedFrom = ExpPrec.binaryStoredIn := by decide
   cases l with
-  | real g => exact absurd h (by simp [LitLex])
+  | real g =>
+    obtain ⟨hsp, hfix⟩ := h
+    have hnd : (real2exp g).all Char.isDigit = false := real2exp_not_all_digits g (realSp_dot g hsp)
+    refine ⟨?_, fun _ => rfl⟩
+    simp only [litToks, hnd, Bool.false_eq_true, if_false, List.map]
+    rw [frag_aW_tok]
+    simp [litFrag, sp, hfix]
   | str s => exact absurd h (by simp [LitLex])
   | int n => exact ⟨by simp only [litToks, List.map]; rw [frag_aW_tok]; rfl, fun _ => rfl⟩
   | estr s =>
@@ -574,7 +581,7 @@ theorem annot_eq (e : Expr) :
 
 /-- tokens an expression's output can end with (and `[`, after which anything may follow) -/
 def endTok : Tok → Bool
-  | .id _ | .kw _ | .bin _ | .estr _ | .rp | .rb | .lb | .int _ => true
+  | .id _ | .kw _ | .bin _ | .estr _ | .rp | .rb | .lb | .int _ | .real _ => true
   | _ => false
 
 def EndO (lt : Option Tok) : Prop := ∀ t, lt = some t → endTok t = true
@@ -695,7 +702,24 @@ theorem safe_lit (l : Lit) (h : LitLex l) (p : Bool) (q : Option BinOp) (slt : O
     apply hni
     intro n hn; subst hn; simp [intEnd] at hi
   cases l with
-  | real g => exact absurd h (by simp [LitLex])
+  | real g =>
+    obtain ⟨hsp, hfix⟩ := h
+    have hnd : (real2exp g).all Char.isDigit = false := real2exp_not_all_digits g (realSp_dot g hsp)
+    apply key (.real g) (by simp [litToks, hnd]) hsp ?_ rfl (fun _ n hn => by cases hn)
+    obtain ⟨ds, fs, ex, rfl, hne, hds, _, _⟩ := hsp
+    cases ds with
+    | nil => exact absurd rfl hne
+    | cons c ds' =>
+      simp only [List.all_cons, Bool.and_eq_true] at hds
+      have hc : c ≠ '-' := by
+        rintro rfl
+        have := hds.1
+        revert this; decide
+      simp only [sp, List.cons_append]
+      unfold startsMinus
+      split
+      · rename_i heq; injection heq with h1 _; exact absurd h1 hc
+      · rfl
   | str s => exact absurd h (by simp [LitLex])
   | int n =>
     apply key (.int n) rfl trivial ?_ rfl (fun hh m _ => hh n rfl)
@@ -877,5 +901,104 @@ theorem safe_all (e : Expr) :
       obtain ⟨e1, e2⟩ := ihe.1 false none none h.1 (Or.inl rfl)
       simp [itemA, hrep, safeSeq_append, flowSeq_append, SafeSeq, flowSeq, AFrag.prev, AFrag.flow, aW, aR, bodySafe, endAfter, nxt, wf_lp, wf_rp, wf_lb, wf_rb, wf_comma, wf_colon, wf_dot, wf_bslash, wf_bar, wf_allIn, wf_op, wf_not, wf_query, e1, c1, t1]
       exact ⟨(endO_adj (h2 rfl)).1, t2⟩
+
+/-! ### real literals: the printer sees a real only through `real2exp` -/
+
+def respellLit : Lit → Lit
+  | .real g => .real (real2exp g)
+  | l => l
+
+/-- every real literal replaced by the spelling exppp prints for it -/
+def respell : Expr → Expr
+  | .lit l => .lit (respellLit l)
+  | .ident s => .ident s
+  | .bin o a b => .bin o (respell a) (respell b)
+  | .neg a => .neg (respell a)
+  | .not a => .not (respell a)
+  | .dot a f => .dot (respell a) f
+  | .group a f => .group (respell a) f
+  | .index a i => .index (respell a) (respell i)
+  | .range a i j => .range (respell a) (respell i) (respell j)
+  | .query v s c => .query v (respell s) (respell c)
+  | .call f as => .call f (respell as)
+  | .aggr is => .aggr (respell is)
+  | .nil => .nil
+  | .cons e t => .cons (respell e) (respell t)
+  | .rep e c t => .rep (respell e) (respell c) (respell t)
+
+theorem indexParen_respell (i : Expr) : indexParen (respell i) = indexParen i := by
+  cases i <;> simp [respell, indexParen]
+
+theorem litFrag_respell (l : Lit) (h : LitLex (respellLit l)) (b : Bool) : litFrag b (respellLit l) = litFrag b l := by
+  cases l with
+  | real g => simp only [respellLit, LitLex] at h; simp [respellLit, litFrag, h.2]
+  | _ => rfl
+
+/-- the fragments of an expression depend on its real literals only through their printed spelling -/
+theorem frags_respell (e : Expr) :
+    (∀ p q, lexWF (respell e) → exprFrags Shared.clean (respell e) p q = exprFrags Shared.clean e p q)
+    ∧ (∀ fst, lexArgs (respell e) → argFrags Shared.clean (respell e) fst = argFrags Shared.clean e fst)
+    ∧ (∀ fst, lexItems (respell e) → itemFrags Shared.clean (respell e) fst = itemFrags Shared.clean e fst) := by
+  have hrep : ExpPrec.repeatOverwritesCountType = false := rfl
+  induction e with
+  | lit l =>
+    refine ⟨fun p q h => ?_, fun _ _ => rfl, fun _ _ => rfl⟩
+    simp only [respell, lexWF] at h
+    simp [respell, exprFrags, litFrag_respell l h]
+  | ident s => exact ⟨fun _ _ _ => rfl, fun _ _ => rfl, fun _ _ => rfl⟩
+  | bin o a b iha ihb =>
+    refine ⟨fun p q h => ?_, fun _ _ => rfl, fun _ _ => rfl⟩
+    simp only [respell, lexWF] at h
+    simp [respell, exprFrags, iha.1 _ _ h.1, ihb.1 _ _ h.2]
+  | neg a iha =>
+    refine ⟨fun p q h => ?_, fun _ _ => rfl, fun _ _ => rfl⟩
+    simp only [respell, lexWF] at h
+    simp [respell, exprFrags, iha.1 _ _ h]
+  | not a iha =>
+    refine ⟨fun p q h => ?_, fun _ _ => rfl, fun _ _ => rfl⟩
+    simp only [respell, lexWF] at h
+    simp [respell, exprFrags, iha.1 _ _ h]
+  | dot a f iha =>
+    refine ⟨fun p q h => ?_, fun _ _ => rfl, fun _ _ => rfl⟩
+    simp only [respell, lexWF] at h
+    simp [respell, exprFrags, iha.1 _ _ h.1]
+  | group a f iha =>
+    refine ⟨fun p q h => ?_, fun _ _ => rfl, fun _ _ => rfl⟩
+    simp only [respell, lexWF] at h
+    simp [respell, exprFrags, iha.1 _ _ h.1]
+  | index a i iha ihi =>
+    refine ⟨fun p q h => ?_, fun _ _ => rfl, fun _ _ => rfl⟩
+    simp only [respell, lexWF] at h
+    have := ihi.1 (indexParen i) none h.2
+    simp [respell, exprFrags, iha.1 _ _ h.1, indexParen_respell, this]
+  | range a i j iha ihi ihj =>
+    refine ⟨fun p q h => ?_, fun _ _ => rfl, fun _ _ => rfl⟩
+    simp only [respell, lexWF] at h
+    have h1 := ihi.1 (indexParen i) none h.2.1
+    have h2 := ihj.1 (indexParen j) none h.2.2
+    simp [respell, exprFrags, iha.1 _ _ h.1, indexParen_respell, h1, h2]
+  | query v s c ihs ihc =>
+    refine ⟨fun p q h => ?_, fun _ _ => rfl, fun _ _ => rfl⟩
+    simp only [respell, lexWF] at h
+    simp [respell, exprFrags, ihs.1 _ _ h.2.1, ihc.1 _ _ h.2.2]
+  | call f as ih =>
+    refine ⟨fun p q h => ?_, fun _ _ => rfl, fun _ _ => rfl⟩
+    simp only [respell, lexWF] at h
+    simp [respell, exprFrags, ih.2.1 _ h.2]
+  | aggr is ih =>
+    refine ⟨fun p q h => ?_, fun _ _ => rfl, fun _ _ => rfl⟩
+    simp only [respell, lexWF] at h
+    simp [respell, exprFrags, ih.2.2 _ h]
+  | nil => exact ⟨fun _ _ _ => rfl, fun _ _ => rfl, fun _ _ => rfl⟩
+  | cons e t ihe iht =>
+    refine ⟨fun _ _ _ => rfl, fun fst h => ?_, fun fst h => ?_⟩
+    · simp only [respell, lexArgs] at h
+      simp [respell, argFrags, ihe.1 _ _ h.1, iht.2.1 _ h.2]
+    · simp only [respell, lexItems] at h
+      simp [respell, itemFrags, ihe.1 _ _ h.1, iht.2.2 _ h.2, sharedRep_clean]
+  | rep e c t ihe ihc iht =>
+    refine ⟨fun _ _ _ => rfl, fun _ _ => rfl, fun fst h => ?_⟩
+    simp only [respell, lexItems] at h
+    simp [respell, itemFrags, ihe.1 _ _ h.1, ihc.1 _ _ h.2.1, iht.2.2 _ h.2.2, sharedRep_clean, hrep]
 
 end StepModel.Express
